@@ -1183,6 +1183,12 @@ func bodyC08(s *Sim) {
 		if e == nil || e.Status.State != edsv1.ExtendedDaemonSetStatusStateCanaryPaused {
 			break // the pause did not take (e.g. no canary pod to restart)
 		}
+		// the premise is the pause itself, not what status.state still says: a reconcile that ends in an
+		// error (too few valid canary nodes) writes no status, and the state can be that of an earlier pause
+		if crNow := s.Store.GetERS(def.NS, cr.Name); crNow == nil || !(annTrue(e.Annotations, edsv1.ExtendedDaemonSetCanaryPausedAnnotationKey) || ersCondTrue(&crNow.Status, edsv1.ConditionTypeCanaryPaused)) {
+			s.Probe("c08.paused-wait-state-stale")
+			break
+		}
 		s.Stats.NonVacuous["C08.paused-wait-"+how]++
 		active := e.Status.ActiveReplicaSet
 		d := e.Spec.Strategy.Canary.Duration.Duration
@@ -1196,7 +1202,12 @@ func bodyC08(s *Sim) {
 		}
 		e = s.Store.GetEDS(def.NS, def.Name)
 		if e != nil && e.Status.ActiveReplicaSet != active {
-			s.Violate("C08", "paused-promoted", how, "canary paused (%s); after the duration elapsed the active replica set changed from %s to %s", how, active, e.Status.ActiveReplicaSet)
+			cr2 := s.Store.GetERS(def.NS, cr.Name)
+			conds := ""
+			if cr2 != nil {
+				conds = fmt.Sprint(cr2.Status.Conditions)
+			}
+			s.Violate("C08", "paused-promoted", how, "canary paused (%s); after the duration elapsed the active replica set changed from %s to %s (annotations %v; canary replica set %s conditions %s)", how, active, e.Status.ActiveReplicaSet, e.Annotations, cr.Name, conds)
 		}
 	case "canary-unpause":
 		e := s.Store.GetEDS(def.NS, def.Name)
